@@ -13,7 +13,7 @@ so that a known finding is a family "<check>:<severity>:<category>@<zone>(<scope
 import json, os, time, collections, threading
 import vf
 
-ALL_KINDS = ["none", "sp", "sp2", "tab", "lf", "lf3", "blank", "crlf", "lcom", "trail", "ownlcom", "detach", "bcom",
+ALL_KINDS = ["none", "sp", "sp2", "tab", "ff", "lf", "lf3", "blank", "crlf", "lcom", "trail", "ownlcom", "detach", "bcom",
              "spbcom", "mlbcom", "bom", "eofcom"]
 CORE_KINDS = ["none", "sp", "lf", "blank", "trail", "ownlcom", "detach", "bcom", "mlbcom"]
 SKELS = ["hdr", "msg", "body", "enum", "copt", "coptml", "lit", "svc", "ed", "odd", "empty"]
